@@ -10,7 +10,12 @@ JSON_FORMATS = ("composeinfo", "images", "rpms", "modules", "extra_files")
 HEADER_TYPES = {"composeinfo": "productmd.composeinfo", "images": "productmd.images", "rpms": "productmd.rpms", "modules": "productmd.modules",
                 "extra_files": "productmd.extra_files", "treeinfo": "productmd.treeinfo"}
 TABLE_KEY = {"composeinfo": "variants", "images": "images", "rpms": "rpms", "modules": "modules", "extra_files": "extra_files"}
-BAD_VERSIONS = ["1", "1.x", "1.2.3", "", "x.1", "1.", ".2", "1,2", " 1.2", "v1.2", "1.2\n", 12, None, {"$float": "1.2"}, ["1", "2"], True]
+BAD_VERSIONS = ["1", "1.x", "1.2.3", "", "x.1", "1.", ".2", "1,2", " 1.2", "1.2 ", "\t1.2", "1.2\u00a0", "1 .2", "v1.2", "1.2\n", "1..2", "1-2", "1:2", "1/2", "-1.2", "+1.2",
+                "1.2e0", "None", "null", "0", "1.0x", "1" * 300, 12, 0, None, False, {"$float": "1.2"}, ["1", "2"], [], {}, True]
+GOOD_VERSIONS = ["1.\u0662", "1.\uff12", "1.02", "01.2", "1." + "0" * 300 + "2"]        # `\d` and int() are Unicode-aware; leading zeros are digits
+# a version that STARTS with a non-ASCII digit passes the validator (`\d`) but split_version's ASCII test `^[^0-9]` takes it for a name: the tuple
+# comparison then raises TypeError. The document is refused either way (C07 asks no more); recorded as an observation, expectation "any"
+ODD_VERSIONS = ["\u0661.\u0662", "\uff11.\uff12"]
 
 
 # ------------------------------------------------------------------------------------------------ documents
@@ -205,9 +210,55 @@ def special_mods(fmt, doc, rng, T):
     if fmt == "images":
         for v, arches in doc["payload"]["images"].items():
             for a in arches:
-                for bad in ("src", "nosrc", "x86-64", "X86_64", ""):
+                for bad in ("src", "nosrc", "x86-64", "X86_64", "", "srcx", "sr", "nosrcx", "SRC", "x86_64 ", " x86_64", "ppc6", "ppc64lex"):
                     if bad not in arches:
                         out.append(({"path": ["payload", "images", v, a], "rename": bad}, "cell-arch:" + bad))
+    return out
+
+
+def accept_mods(fmt, doc, rng):
+    """LEGAL variations of a valid document that must still load (and the loaded object must satisfy the catalogue): the reader's documented
+    coercions, empty containers, Unicode-digit / zero-padded header versions"""
+    out = []
+    if fmt in JSON_FORMATS or fmt == "treeinfo":
+        for v in GOOD_VERSIONS:
+            out.append(([{"path": ["header", "version"], "value": v}], "version-legal:%s" % v[:8]))
+        for v in ODD_VERSIONS:
+            out.append(([{"path": ["header", "version"], "value": v}], "version-odd:%s" % v[:8]))
+    if fmt in JSON_FORMATS:
+        out.append(([{"path": ["payload", TABLE_KEY[fmt]], "value": {}}], "empty-table"))
+        for f, v in [("respin", True), ("respin", 2 ** 63), ("respin", -1), ("final", "x"), ("date", "".join(chr(0x660 + int(c)) for c in "20200101"))]:
+            out.append(([{"path": ["payload", "compose", f], "value": v}], "legal:%s" % f))
+    if fmt == "images":
+        out.append(([{"path": ["payload", "images"], "value": []}], "empty-table-list"))
+        cells = [(v, a, i) for v, arches in doc["payload"]["images"].items() for a, imgs in arches.items() for i in range(len(imgs))]
+        if cells:
+            v, a, i = rng.choice(cells)
+            for f, val in [("size", {"$float": "1.5"}), ("size", "12"), ("size", True), ("size", " 7 "), ("mtime", {"$float": "-1.9"}), ("mtime", "0"), ("disc_number", "10"),
+                           ("disc_count", {"$float": "0.5"}), ("bootable", "no"), ("bootable", []), ("size", 2 ** 63), ("volume_id", " "), ("subvariant", ""), ("arch", " ")]:
+                out.append(([{"path": ["payload", "images", v, a, i, f], "value": val}], "coerced-valid:%s" % f))
+            out.append(([{"path": ["payload", "images", v, a], "value": []}], "empty-cell"))
+    if fmt == "composeinfo":
+        out.append(([{"path": ["payload", "release", "type"], "value": doc["payload"]["release"].get("type", "ga").upper()}], "coerced-valid:release.type-upper"))
+        out.append(([{"path": ["payload", "release", "internal"], "value": "x"}], "coerced-valid:internal"))
+    if fmt == "treeinfo":
+        if "tree" in doc and "variants" in doc["tree"]:
+            out.append(([{"path": ["tree", "variants"], "delete": True}], "no-variants-option"))
+        if "tree" in doc:
+            out.append(([{"path": ["tree", "build_timestamp"], "value": "1.9"}], "coerced-valid:build_timestamp"))
+            out.append(([{"path": ["tree", "build_timestamp"], "value": "-7"}], "coerced-valid:build_timestamp"))
+            out.append(([{"path": ["tree", "build_timestamp"], "value": "1e3"}], "coerced-valid:build_timestamp"))
+        if "release" in doc:
+            for v in ("True", "yes", "ON", "0", "off"):
+                if v.lower() in ("0", "off") or "base_product" in doc:
+                    out.append(([{"path": ["release", "is_layered"], "value": v}], "coerced-valid:is_layered"))
+    if fmt == "discinfo":
+        for v in ("1e3", " 1.5 ", "+2", "1_0.5", "inf", ".5"):
+            out.append(([{"path": [0], "value": v}], "coerced-valid:timestamp"))
+        out.append(([{"path": [3], "value": ""}], "legal:no-disc-numbers"))
+        out.append(([{"path": [3], "value": " 1 , 2 "}], "coerced-valid:disc_numbers"))
+        out.append(([{"path": [1], "value": "\"quoted\""}], "legal:description"))
+        out.append(([{"path": [3], "truncate": True}], "legal:three-lines"))
     return out
 
 
@@ -275,14 +326,14 @@ def treeinfo_value_mods(doc, rng):
             if "parent" in doc[s]:
                 S(s, "uid", doc[s]["uid"] + "x", "child-uid-misaligned")
                 S(s, "id", doc[s]["id"] + "x", "child-id-misaligned")
-        if s.startswith("images-"):
+        if s.startswith("images-") and doc[s]:
             k = sorted(doc[s])[0]
             S(s, k, "/abs/" + k, "image-path-absolute")
         if s == "stage2" and "mainimage" in doc[s]:
             S(s, "mainimage", "/abs/stage2.img", "stage2-absolute")
         if s == "media":
             S(s, "discnum", "x", "media.discnum"); S(s, "totaldiscs", "1.5", "media.totaldiscs"); S(s, "discnum", "", "media.discnum")
-        if s == "checksums":
+        if s == "checksums" and doc[s]:
             k = sorted(doc[s])[0]
             out.append(({"path": [s, k], "rename": "/abs/" + k}, "checksum-path-absolute"))
             S(s, k, "0123", "checksum-format")
@@ -294,7 +345,7 @@ def treeinfo_value_mods(doc, rng):
     for s in doc:
         if (s.startswith("variant-") or s.startswith("addon-")) and "addons" in doc[s]:
             out.append(({"path": [s, "addons"], "value": doc[s]["addons"] + "," + doc[s]["uid"] + "-Ghost"}, "dangling-addon-reference"))
-        if s == "checksums":
+        if s == "checksums" and doc[s]:
             out.append(({"path": [s, sorted(doc[s])[0]], "value": "a:b:c"}, "checksum-format"))
     return out
 
@@ -356,8 +407,12 @@ class C07(Prop):
             # document into the object first and then the case's document into the SAME object (composeinfo/treeinfo refuse a second
             # load anyway: duplicate variant ids)
             a = c["args"]
+            self._nvia = getattr(self, "_nvia", 0) + 1
+            a["via"] = ["loads", "loads", "load-path", "loads", "load-fileobj"][self._nvia % 5]
             if a["fmt"] in self.PRELOAD_OK and (a["expect"] == "reject" or (not a["mods"] and a["fmt"] != "images")) and rng.random() < 0.35:
                 a["preload"] = "valid-document-first"
+            elif a["fmt"] in ("rpms", "modules", "extra_files", "discinfo") and a["expect"] == "accept" and rng.random() < 0.3:
+                a["preload"] = "invalid-document-first"     # a REFUSED load into the same object must not spoil the next one
             # the known finding F15 is met a bounded number of times per run (checklib stops consuming after 50 failures, known or not)
             if self.trailing_nl(c):
                 quota[0] -= 1
@@ -373,8 +428,19 @@ class C07(Prop):
             k = i // len(V.FORMATS)
             i += 1
             spec = V.gen(rng, fmt, k)
-            doc = self.base_doc(fmt, spec)
-            kind = ["valid", "version", "gate", "required", "value", "value", "special", "value"][k % 8]
+            try:
+                doc = self.base_doc(fmt, spec)
+                chk = V.new(fmt); chk.loads(to_text(fmt, doc))
+            except Exception:   # noqa: what the writer accepts and the reader refuses (discinfo disc numbers 'x', a blank-only arch, timestamp 0.5) is C04's
+                self.unloadable = getattr(self, "unloadable", 0) + 1
+                continue
+            kind = ["valid", "version", "gate", "required", "value", "value", "special", "value", "accept"][k % 9]
+            if kind == "accept":
+                acc = accept_mods(fmt, doc, rng)
+                if acc:
+                    m, tag = acc[(k // 9) % len(acc)]
+                    n += 1; yield mk(m, tag, "any" if tag.startswith("version-odd") else "accept"); continue
+                kind = "value"
             mk = lambda mods, tag, expect: {"op": "c07", "args": {"fmt": fmt, "doc": doc, "mods": mods, "tag": tag, "expect": expect}}
             if fmt == "discinfo":
                 if kind in ("version", "gate"):
@@ -385,8 +451,11 @@ class C07(Prop):
                 v = rng.choice(BAD_VERSIONS if fmt != "treeinfo" else [x for x in BAD_VERSIONS if isinstance(x, str) and "\n" not in x and x.strip() == x and x != ""])
                 n += 1; yield mk([{"path": ["header", "version"], "value": v}], "version:%r" % (v,), "reject"); continue
             if kind == "gate" and fmt != "discinfo":
-                ver = ["1.0", "1.1", "1.2", "1.10", "2.0", "0.9"][(k // 8) % 6] if fmt not in ("treeinfo",) else ["1.0", "1.1", "1.2", "1.10", "2.0"][(k // 8) % 5]
-                ty = rng.choice(sorted(HEADER_TYPES.values()) + [None, "productmd.Images", ""])
+                # both sides of the literal (1, 1), and spellings whose integer tuple is on the other side of where the text seems to be
+                probes = ["1.0", "1.1", "1.2", "1.10", "2.0", "1.01", "01.1", "1.00", "1.9", "\u0661.\u0661", "10.0"] + (["0.9"] if fmt != "treeinfo" else [])
+                ver = probes[(k // 9) % len(probes)]
+                own = HEADER_TYPES[fmt]
+                ty = rng.choice(sorted(HEADER_TYPES.values()) + [None, "productmd.Images", "", own[:-1], own + "x", own.upper(), " " + own, own + " ", own + "\n"])
                 mods = [{"path": ["header", "version"], "value": ver}]
                 if ty is None:
                     mods.append({"path": ["header", "type"], "delete": True})
@@ -394,6 +463,10 @@ class C07(Prop):
                     mods.append({"path": ["header", "type"], "value": ty})
                 vt = tuple(int(x) for x in ver.split("."))
                 expect = "reject" if (vt >= (1, 1) and ty != HEADER_TYPES[fmt]) else ("accept" if vt >= (1, 0) else "any")
+                if not ver[0].isascii():
+                    expect = "reject" if expect == "reject" else "any"
+                if fmt == "treeinfo" and isinstance(ty, str) and ty.strip() == HEADER_TYPES[fmt]:
+                    expect = "any"          # configparser strips outer blanks: C04's reader, not a header matter
                 n += 1; yield mk(mods, "gate:%s:%s" % (ver, ty), expect); continue
             if kind == "required":
                 mods = required_mods(fmt, doc)
@@ -451,11 +524,16 @@ class C07(Prop):
             model_doc = [l.strip() for l in io.StringIO(text).readlines()]
         self._cache[checklib.key_of(case)] = model_doc
         obj = V.new(fmt)
-        if a.get("preload"):
+        if a.get("preload") == "valid-document-first":
             pre = V.outcome(obj.loads, to_text(fmt, a["doc"]))
             if "err" in pre:
                 return {"loads": "MOD-NA"}
-        r = V.outcome(obj.loads, text)
+        elif a.get("preload") == "invalid-document-first":
+            bad = apply_docmod(a["doc"], {"path": [0], "value": "not-a-number"} if fmt == "discinfo" else {"path": ["payload", "compose", "date"], "value": "2015"})
+            pre = V.outcome(obj.loads, to_text(fmt, bad))
+            if "ok" in pre:
+                return {"loads": "MOD-NA"}
+        r = self.read(obj, text, a.get("via"))
         if "err" in r:
             return {"loads": r["err"]}
         # a successful load: every part of the object must satisfy the catalogue (spec side, not the library's validators)
@@ -468,6 +546,25 @@ class C07(Prop):
             if R.violated(cls, snap, T, lenient=True):
                 bad_lenient.append(pth)
         return {"loads": "ok", "violations": bad, "violations_lenient": bad_lenient}
+
+    def read(self, obj, text, via):
+        """load()/loads() through one of the documented entry points"""
+        if via in (None, "loads"):
+            return V.outcome(obj.loads, text)
+        import io, os, tempfile
+        if via == "load-fileobj":
+            return V.outcome(obj.load, io.StringIO(text))
+        d = tempfile.mkdtemp(prefix="c07-")
+        path = os.path.join(d, "in")
+        try:
+            with open(path, "w") as f:
+                f.write(text)
+            return V.outcome(obj.load, path)
+        finally:
+            try:
+                os.unlink(path); os.rmdir(d)
+            except OSError:
+                pass
 
     # ---------------------------------------------------------------------------- model
     def model_requests(self, case):
@@ -527,6 +624,8 @@ class C07(Prop):
             d = dist.setdefault("exception_classes", {})
             d[real_out["loads"]] = d.get(real_out["loads"], 0) + 1
         dist["outside_model"] = self.outside
+        dist["base_document_not_loadable"] = getattr(self, "unloadable", 0)
+        v = dist.setdefault("via", {}); v[a.get("via", "loads")] = v.get(a.get("via", "loads"), 0) + 1
 
     def shrink_candidates(self, case):
         return []
